@@ -984,7 +984,7 @@ inline void loadLevelFiles(const std::string& dir, int level, std::vector<std::p
   for (int s = 0; s < 4096; s++) {
     bool any = false;
     for (int seg = 0; seg < 4096; seg++) {
-      std::string path = dir + "/L" + std::to_string(level) + ".s" + std::to_string(s) + ".g" + std::to_string(seg) + ".txt";
+      std::string path = dir + ".L" + std::to_string(level) + ".s" + std::to_string(s) + ".g" + std::to_string(seg) + ".txt";
       std::ifstream f(path);
       if (!f) break;
       any = true;
@@ -1053,7 +1053,9 @@ inline void applyProtocol(Ctx& C, const std::string& out, std::string* successor
 inline void runLevel(Ctx& C) {
   int level = atoi(C.opt("level", "1").c_str());
   int maxLevel = atoi(C.opt("depth", "3").c_str());
-  std::string dir = C.opt("workdir", "/tmp/hx-work");
+  // level files of one search are <workdir>/<tag>.L<level>.s<shard>.g<segment>.txt; the tag keeps the searches of one
+  // property (different alphabets / geometries) apart
+  std::string dir = C.opt("workdir", "/tmp/hx-work") + "/" + C.opt("tag", "search");
   size_t cap = size_t(atol(C.opt("cap", "0").c_str()));
   Alphabet AB;
   AB.full = C.opt("alphabet", "full") == "full";
@@ -1084,7 +1086,7 @@ inline void runLevel(Ctx& C) {
   // successors of this shard go to a fresh segment file
   std::string segPath;
   for (int seg = 0; seg < 4096; seg++) {
-    segPath = dir + "/L" + std::to_string(level) + ".s" + std::to_string(C.shard) + ".g" + std::to_string(seg) + ".txt";
+    segPath = dir + ".L" + std::to_string(level) + ".s" + std::to_string(C.shard) + ".g" + std::to_string(seg) + ".txt";
     if (access(segPath.c_str(), F_OK) != 0) break;
   }
   FILE* segf = fopen(segPath.c_str(), "w");
